@@ -7,25 +7,57 @@ ID="$1"; TIER="${2:-quick}"; shift; shift || true
 export GOFLAGS=-mod=mod GOPROXY=off GOSUMDB=off GOTOOLCHAIN=local
 export GOCACHE=/verif/.cache/go-build
 mkdir -p /verif/.bin /verif/.work /verif/evidence /verif/replays "$GOCACHE"
-cd /verif/mc || exit 2
 REPO="${VERIF_REPO:-/repo}"
+export VERIF_REPO="$REPO"
+W=/verif/.work/build.$$
+mkdir -p "$W"
+cleanup() { rm -rf "$W" "/verif/.bin/mc.$$"; }
+trap cleanup EXIT
+cd /verif/mc || exit 2
 cp "$REPO/go.sum" go.sum 2>/dev/null
 BIN=/verif/.bin/mc.$$
 MODARGS=()
 if [ "$REPO" != "/repo" ]; then
-  sed "s#=> /repo#=> $REPO#" go.mod > /verif/.work/go.$$.mod
-  cp go.sum /verif/.work/go.$$.sum
-  MODARGS=(-modfile=/verif/.work/go.$$.mod)
+  sed "s#=> /repo#=> $REPO#" go.mod > "$W/go.mod"
+  cp go.sum "$W/go.sum"
+  MODARGS=(-modfile="$W/go.mod")
 fi
-if ! go build "${MODARGS[@]}" -o "$BIN" . 2>/verif/.work/build.$$.log; then
-  # a tree that does not compile is not a property violation; report and fail hard
-  cat /verif/.work/build.$$.log >&2
-  echo "HARNESS-ERROR: build failed against $REPO working tree" >&2
-  rm -f /verif/.work/build.$$.log /verif/.work/go.$$.mod /verif/.work/go.$$.sum
-  exit 2
+# read-only accessors to package-level variables, injected as a build overlay
+# generated from the working tree (build tag verifoverlay); without them the
+# harness still builds and says so in its evidence
+OVARGS=()
+if [ ! -x /verif/.bin/genglobals ]; then (cd /verif/tools/genglobals && go build -o /verif/.bin/genglobals . 2>/dev/null); fi
+if /verif/.bin/genglobals "$REPO" "$W/ov" 2>"$W/gen.log"; then
+  OVARGS=(-tags verifoverlay -overlay "$W/ov/overlay.json")
 fi
-rm -f /verif/.work/build.$$.log /verif/.work/go.$$.mod /verif/.work/go.$$.sum
+if [ ${#OVARGS[@]} -eq 0 ] || ! go build "${MODARGS[@]}" "${OVARGS[@]}" -o "$BIN" . 2>"$W/build.log"; then
+  if ! go build "${MODARGS[@]}" -o "$BIN" . 2>"$W/build.log"; then
+    # a tree that does not compile is not a property violation; report and fail hard
+    cat "$W/build.log" >&2
+    echo "HARNESS-ERROR: build failed against $REPO working tree" >&2
+    exit 2
+  fi
+fi
 "$BIN" "$ID" "$TIER" "$@"
 rc=$?
-rm -f "$BIN"
+# C20 thorough: the supplementary free-running concurrent pass under the race detector
+if [ "$ID" = "C20" ] && [ "$TIER" = "thorough" ] && [ $# -eq 0 ] && [ $rc -le 1 ]; then
+  if CGO_ENABLED=1 go build -race "${MODARGS[@]}" "${OVARGS[@]}" -o "$BIN.race" . 2>"$W/race-build.log"; then
+    VERIF_OUT="$W/raceout" GORACE="halt_on_error=0" "$BIN.race" C20R thorough >"$W/race.log" 2>&1
+    rrc=$?
+    if grep -q "WARNING: DATA RACE" "$W/race.log" || [ $rrc -eq 66 ] || [ $rrc -eq 1 ]; then
+      mkdir -p "${VERIF_OUT:-/verif}/replays/C20"
+      RP="${VERIF_OUT:-/verif}/replays/C20/C20-race-$$.log"
+      cp "$W/race.log" "$RP"
+      echo "VIOLATION property=C20 replay=$RP"
+      grep -A12 "WARNING: DATA RACE" "$W/race.log" | head -30
+      rc=1
+    else
+      echo "C20 race-detector pass: no report (supplementary, free-running)"
+    fi
+    rm -f "$BIN.race"
+  else
+    echo "C20 race-detector pass skipped: -race build unavailable ($(head -1 "$W/race-build.log"))"
+  fi
+fi
 exit $rc
